@@ -308,3 +308,186 @@ func (c *Ctx) persistedFields(spec CodecSpec) fieldSet {
 	}
 	return out
 }
+
+// controllingIfs lists the If-terminated blocks B of fn such that exactly one of
+// B's successors can reach target (without passing through B again): the branch
+// decides whether target executes.
+func controllingIfs(fn *ssa.Function, target *ssa.BasicBlock) []*ssa.BasicBlock {
+	var out []*ssa.BasicBlock
+	for _, b := range fn.Blocks {
+		if len(b.Instrs) == 0 || len(b.Succs) != 2 || b == target {
+			continue
+		}
+		if _, ok := b.Instrs[len(b.Instrs)-1].(*ssa.If); !ok {
+			continue
+		}
+		n := 0
+		for _, s := range b.Succs {
+			if blockReaches(s, target, b) {
+				n++
+			}
+		}
+		if n == 1 {
+			out = append(out, b)
+		}
+	}
+	return out
+}
+
+func blockReaches(from, to, avoid *ssa.BasicBlock) bool {
+	seen := map[*ssa.BasicBlock]bool{}
+	st := []*ssa.BasicBlock{from}
+	for len(st) > 0 {
+		b := st[len(st)-1]
+		st = st[:len(st)-1]
+		if b == to {
+			return true
+		}
+		if seen[b] || b == avoid {
+			continue
+		}
+		seen[b] = true
+		st = append(st, b.Succs...)
+	}
+	return false
+}
+
+// controlFields: the fields of T read by the branch conditions that decide which
+// value a store writes (conditions controlling the store itself and, when the
+// stored value is a phi, the conditions selecting its edges).
+func (c *Ctx) controlFields(fn *ssa.Function, st *ssa.Store, T types.Type) fieldSet {
+	out := fieldSet{}
+	addCond := func(b *ssa.BasicBlock) {
+		iff := b.Instrs[len(b.Instrs)-1].(*ssa.If)
+		sl := &slicer{P: c.P, visited: map[ssa.Value]bool{}}
+		sl.fieldsOf(iff.Cond, T, out, nil, nil)
+	}
+	for _, b := range controllingIfs(fn, st.Block()) {
+		addCond(b)
+	}
+	seen := map[*ssa.Phi]bool{}
+	var phis func(v ssa.Value)
+	phis = func(v ssa.Value) {
+		v = stripNoCell(v)
+		phi, ok := v.(*ssa.Phi)
+		if !ok || seen[phi] {
+			return
+		}
+		seen[phi] = true
+		for i, p := range phi.Block().Preds {
+			if len(p.Succs) == 2 {
+				if _, isIf := p.Instrs[len(p.Instrs)-1].(*ssa.If); isIf {
+					addCond(p)
+				}
+			}
+			for _, b := range controllingIfs(fn, p) {
+				if b != phi.Block() {
+					addCond(b)
+				}
+			}
+			phis(phi.Edges[i])
+		}
+	}
+	phis(st.Val)
+	return out
+}
+
+// CheckCodecControl: (writer) whether/what a wire field is written may depend only
+// on the object fields it carries; (reader) every store into a persisted object
+// field takes its value from the wire struct (no invented defaults), except the
+// listed adapters.
+func (c *Ctx) CheckCodecControl(spec CodecSpec, readerDefaults map[string]string) {
+	P := c.P
+	objT := P.NamedType(spec.Obj)
+	wireT := P.NamedType(spec.Wire)
+	mfn, ufn := P.Func(spec.Marshal), P.Func(spec.Unmarshal)
+	c.touch(mfn)
+	c.touch(ufn)
+	objName := objT.Obj().Name()
+	persisted := c.persistedFields(spec)
+	n := 0
+	for _, b := range mfn.Blocks {
+		for _, in := range b.Instrs {
+			st, ok := in.(*ssa.Store)
+			if !ok {
+				continue
+			}
+			fa, ok := st.Addr.(*ssa.FieldAddr)
+			if !ok || !ptrOrSelf(fa.X.Type(), wireT) {
+				continue
+			}
+			wf := fieldOfAddr(fa)
+			data := fieldSet{}
+			sl := &slicer{P: P, visited: map[ssa.Value]bool{}}
+			sl.fieldsOf(st.Val, objT, data, nil, nil)
+			ctl := c.controlFields(mfn, st, objT)
+			var extra []string
+			for g := range ctl {
+				if !data[g] && persisted[g] {
+					extra = append(extra, g.Name())
+				}
+			}
+			sort.Strings(extra)
+			n++
+			c.Check(len(extra) == 0, fmt.Sprintf("%s.MarshalJSON#%s-presence#%d", objName, wf.Name(), n), st.Pos(),
+				fmt.Sprintf("what is written to %s depends only on %v", wf.Name(), data.names()),
+				fmt.Sprintf("whether/what %s writes to wire field %s is decided by %s.%v, which that wire field does not carry (it carries %v): for some values of those fields the state is silently dropped on save", spec.Marshal, wf.Name(), objName, extra, data.names()))
+		}
+	}
+	// reader
+	k := 0
+	var scan func(fn *ssa.Function, recv ssa.Value, depth int)
+	scan = func(fn *ssa.Function, recv ssa.Value, depth int) {
+		for _, b := range fn.Blocks {
+			for _, in := range b.Instrs {
+				switch x := in.(type) {
+				case *ssa.Store:
+					fa, ok := x.Addr.(*ssa.FieldAddr)
+					if !ok || fa.X != recv || !ptrOrSelf(fa.X.Type(), objT) {
+						continue
+					}
+					g := fieldOfAddr(fa)
+					if !persisted[g] {
+						continue
+					}
+					deps := fieldSet{}
+					ps := map[int]bool{}
+					sl := &slicer{P: P, visited: map[ssa.Value]bool{}}
+					sl.fieldsOf(x.Val, wireT, deps, ps, fn)
+					k++
+					construct := fmt.Sprintf("%s.UnmarshalJSON#%s-source#%d", objName, g.Name(), k)
+					if len(deps) > 0 || (depth > 0 && len(ps) > 0) {
+						c.Holds(construct, x.Pos(), fmt.Sprintf("restored from %v", deps.names()))
+						continue
+					}
+					switch stripNoCell(x.Val).(type) {
+					case *ssa.MakeMap, *ssa.MakeSlice:
+						c.Holds(construct, x.Pos(), "fresh empty container (its filling is covered by the field relation of R1)")
+						continue
+					}
+					if why, ok := readerDefaults[g.Name()]; ok {
+						c.Holds(construct, x.Pos(), "reviewed adapter: "+why)
+						continue
+					}
+					c.Violated(construct, x.Pos(), fmt.Sprintf("%s stores into persisted field %s.%s a value that does not come from the wire struct: the reloaded state differs from the saved one whenever the field held anything else", SSAFuncName(fn), objName, g.Name()))
+				case *ssa.Call:
+					if depth >= 1 {
+						continue
+					}
+					sf := x.Call.StaticCallee()
+					if sf == nil || sf.Blocks == nil || sf.Pkg != fn.Pkg {
+						continue
+					}
+					for i, a := range x.Call.Args {
+						if a == recv && i < len(sf.Params) {
+							scan(sf, sf.Params[i], depth+1)
+						}
+					}
+				}
+			}
+		}
+	}
+	if len(ufn.Params) > 0 {
+		scan(ufn, ufn.Params[0], 0)
+	}
+}
